@@ -313,6 +313,70 @@ theorem getEntries_filters_conf (c : CC) (cr : Cred) :
     cr ∈ Impl.getEntries c ↔ cr ∈ c.creds ∧ Impl.isConf cr = false := by
   simp [Impl.getEntries, List.mem_filter]
 
+/-! ## the client built from a cache -/
+
+section Client
+open Krb.CCache.Impl
+
+theorem cacheLookup_put (m : List (Bytes × Cred)) (cr : Cred) (k : Bytes) :
+    cacheLookup (cachePut m cr) k = if spnOf cr = k then some cr else cacheLookup m k := by
+  unfold cacheLookup cachePut
+  by_cases h : spnOf cr = k
+  · simp [h]
+  · have hb : (spnOf cr == k) = false := by simp [h]
+    simp only [List.find?_cons, hb, h, if_false, List.find?_filter]
+    congr 2
+    funext e
+    by_cases he : e.1 = k
+    · have : (e.1 == spnOf cr) = false := by
+        simp only [beq_eq_false_iff_ne, ne_eq]; intro hh; exact h (hh ▸ he)
+      simp [he]
+      exact fun hh => h hh.symm
+    · simp [he]
+
+
+/-- what the client holds for an SPN after the credentials `l` have been added to the cache `m`: the last
+    credential of `l` for that SPN, else what `m` held -/
+theorem foldl_put_lookup (l : List Cred) (m : List (Bytes × Cred)) (k : Bytes) :
+    cacheLookup (l.foldl cachePut m) k =
+      match l.reverse.find? (fun cr => spnOf cr == k) with
+      | some cr => some cr
+      | none => cacheLookup m k := by
+  induction l generalizing m with
+  | nil => simp
+  | cons cr l ih =>
+    simp only [List.foldl_cons, List.reverse_cons, List.find?_append]
+    rw [ih]
+    cases hl : l.reverse.find? (fun cr => spnOf cr == k) with
+    | some x => simp
+    | none =>
+      simp only [Option.none_or, List.find?_cons, List.find?_nil]
+      rw [cacheLookup_put]
+      by_cases h : spnOf cr = k
+      · simp [h]
+      · have hb : (spnOf cr == k) = false := by simp [h]
+        simp [h, hb]
+
+/-- **C15 client.** A client built from a cache holds, for every service name, the last credential of the
+    file for that name that is not a configuration entry — that credential itself: its key, its times (auth,
+    start, end, renew-till), its flags and its ticket octets — and nothing for a name the file has no such
+    credential for. -/
+theorem client_holds_last (c : CC) (k : Bytes) :
+    cacheLookup (clientCache c) k = (getEntries c).reverse.find? (fun cr => spnOf cr == k) := by
+  unfold clientCache
+  rw [foldl_put_lookup]
+  cases (getEntries c).reverse.find? (fun cr => spnOf cr == k) <;> simp [cacheLookup]
+
+theorem client_holds_only_file_credentials (c : CC) (k : Bytes) (cr : Cred)
+    (h : cacheLookup (clientCache c) k = some cr) : cr ∈ c.creds ∧ isConf cr = false ∧ spnOf cr = k := by
+  rw [client_holds_last] at h
+  have hm := List.mem_of_find?_eq_some h
+  have hp := List.find?_some h
+  simp only [List.mem_reverse, getEntries, List.mem_filter, Bool.not_eq_true'] at hm
+  exact ⟨hm.1, hm.2, by simpa using hp⟩
+
+end Client
+
 /-! non-vacuity -/
 def exPrinc : Princ := { nameType := 1, realm := [84], comps := [[97], [98, 99]] }
 def exCred : Cred :=
